@@ -62,6 +62,8 @@ package bpv7
 //@ assigns nothing
 //@ ensures result1 == nil ==> result0 != nil
 //@ ensures result1 != nil ==> result0 == nil && forall j int :: 0 <= j && j < len(b.CanonicalBlocks) ==> b.CanonicalBlocks[j].Value.BlockTypeCode() != blockType
+//@ let at := uf("extAt", int, b, blockType, ref(b.CanonicalBlocks), len(b.CanonicalBlocks))
+//@ ensures result1 == nil ==> 0 <= at && at < len(b.CanonicalBlocks) && result0 == &b.CanonicalBlocks[at] && b.CanonicalBlocks[at].Value.BlockTypeCode() == blockType
 //@ loop 0 invariant 0 <= i && i <= len(b.CanonicalBlocks) && forall j int :: 0 <= j && j < i ==> b.CanonicalBlocks[j].Value.BlockTypeCode() != blockType
 //@ loop 0 decreases len(b.CanonicalBlocks) - i
 
@@ -180,3 +182,8 @@ package bpv7
 
 // At most one previous-node block (C02: one block per type).
 // govc:spec prevUnique(b Bundle) bool = forall j, k int :: 0 <= j && j < len(b.CanonicalBlocks) && 0 <= k && k < len(b.CanonicalBlocks) && b.CanonicalBlocks[j].Value.BlockTypeCode() == 6 && b.CanonicalBlocks[k].Value.BlockTypeCode() == 6 ==> j == k
+
+// govc:func NewPreviousNodeBlock property C06
+//@ opt inline true
+//@ assigns nothing
+//@ ensures result != nil && EndpointID(*result) == prev
